@@ -39,7 +39,7 @@ CERTS = [
 ]
 CERT_IDX = {c[0]: i for i, c in enumerate(CERTS)}
 SERVER_CERTS = ['rsa', 'rsapss', 'ecdsa', 'ecdsa384', 'ecdsa521', 'ed25519', 'ed448', 'dsa', 'bp256']
-CLIENT_CERTS = ['client-rsa', 'client-ecdsa', 'client-ed25519', 'client-dsa', 'rsa']
+CLIENT_CERTS = ['client-rsa', 'client-ecdsa', 'client-ed25519', 'client-dsa', 'rsa', 'rsapss']
 _CRED = {}
 _DER = {}
 
@@ -483,14 +483,29 @@ def property_oracle(case, obs, cval, sval):
                     % (c['dh_bits'], cval.minKeySize, cval.maxKeySize)))
     if c['dh_bits'] is not None:
         rfc = {2048: 'ffdhe2048', 3072: 'ffdhe3072', 4096: 'ffdhe4096', 6144: 'ffdhe6144', 8192: 'ffdhe8192'}
-    if c['schain'] is not None and c['schain'] >= 0:
-        alg, bits, _, _, _ = cert_info(CERTS[c['schain']][0])
-        if alg in (0, 1, 5) and not (cval.minKeySize <= bits <= cval.maxKeySize):
-            bad.append(('policy:client:peer-key-size:v%d' % v, 'client accepted a %d-bit server key with [%d,%d]' % (bits, cval.minKeySize, cval.maxKeySize)))
-    if s['cchain'] is not None and s['cchain'] >= 0:
-        alg, bits, _, _, _ = cert_info(CERTS[s['cchain']][0])
-        if alg in (0, 1, 5) and not (sval.minKeySize <= bits <= sval.maxKeySize):
-            bad.append(('policy:server:peer-key-size:v%d' % v, 'server accepted a %d-bit client key with [%d,%d]' % (bits, sval.minKeySize, sval.maxKeySize)))
+    # peer certificate keys, both directions, every key type of /repo/tests:
+    #   rsa / rsa-pss / dsa by size, ECDSA by curve list (TLS <= 1.2; in TLS 1.3 the scheme list governs and
+    #   is checked above), EdDSA by more_sig_schemes
+    from tlslite.constants import GroupName as _GN
+    _gn = {vv: k for k, vv in vars(_GN).items() if isinstance(vv, int)}
+    for side, st, cid in (('client', cval, c['schain']), ('server', sval, s['cchain'])):
+        if cid is None or cid < 0:
+            continue
+        name = CERTS[cid][0]
+        alg, bits, curve, _, _ = cert_info(name)
+        kind = {0: 'rsa', 1: 'rsa-pss', 2: 'ecdsa', 3: 'Ed25519', 4: 'Ed448', 5: 'dsa'}[alg]
+        if alg in (0, 1, 5) and not (st.minKeySize <= bits <= st.maxKeySize):
+            tag = 'v4' if (side == 'server' and v >= 4) else kind
+            key = 'policy:server:peer-key-size:v4' if (side == 'server' and v >= 4 and kind == 'rsa') else \
+                  'policy:%s:peer-key-size:%s:v%d' % (side, kind, v)
+            bad.append((key, '%s accepted a %d-bit %s peer key with minKeySize=%d maxKeySize=%d in version %r (certificate %s)'
+                        % (side, bits, kind, st.minKeySize, st.maxKeySize, ver, name)))
+        if alg == 2 and v <= 3 and _gn.get(curve) not in st.eccCurves:
+            bad.append(('policy:%s:peer-ec-curve:%s:v%d' % (side, _gn.get(curve), v),
+                        '%s accepted an ECDSA peer key on %s, not in its eccCurves %r' % (side, _gn.get(curve), st.eccCurves)))
+        if alg in (3, 4) and kind not in st.more_sig_schemes:
+            bad.append(('policy:%s:peer-eddsa:%s:v%d' % (side, kind, v),
+                        '%s accepted an %s peer key, not in its more_sig_schemes %r' % (side, kind, st.more_sig_schemes)))
     return bad
 
 
@@ -609,6 +624,53 @@ def gen_case(rng, idx):
     return {'id': idx, 'client': c, 'server': s}
 
 
+def boundary_key_cases():
+    """Directed pairs: for every sized key type of /repo/tests (rsa, rsa-pss, dsa), as the server's certificate
+    checked by the client and as the client's certificate checked by the server, in TLS 1.2 and TLS 1.3: the
+    checking side's minKeySize just above / maxKeySize just below / both exactly at the real key size.  ECDSA
+    by curve list, EdDSA by more_sig_schemes."""
+    D = default_settings_dict
+    out = []
+
+    def add(tag, cmod, smod, **kw):
+        c = {'settings': D(), 'flavour': 'cert'}
+        s = {'settings': D()}
+        c['settings'].update(cmod)
+        s['settings'].update(smod)
+        for k, v in kw.items():
+            side, key = k.split('_', 1)
+            (c if side == 'c' else s)[key] = v
+        out.append({'id': 'key-%s-%d' % (tag, len(out)), 'client': c, 'server': s})
+
+    def windows(bits):
+        return [('min-above', {'minKeySize': bits + 1, 'maxKeySize': max(8193, bits + 1)}),
+                ('max-below', {'minKeySize': min(1023, bits - 1), 'maxKeySize': bits - 1}),
+                ('exact', {'minKeySize': bits, 'maxKeySize': bits})]
+    tls12 = {'maxVersion': [3, 3], 'versions': [[3, 3], [3, 2], [3, 1]]}
+    for vname, vmod in (('tls12', tls12), ('tls13', {})):
+        for cert in ('rsa', 'rsapss', 'dsa'):
+            if cert == 'dsa' and vname == 'tls13':
+                continue
+            bits = cert_info(cert)[1]
+            for wname, w in windows(bits):
+                add('srv-%s-%s-%s' % (cert, vname, wname), dict(vmod, **w), {}, s_cert=cert)
+        for cert in ('client-rsa', 'rsapss', 'client-dsa', 'rsa'):
+            if cert == 'client-dsa' and vname == 'tls13':
+                continue
+            bits = cert_info(cert)[1]
+            for wname, w in windows(bits):
+                add('cli-%s-%s-%s' % (cert, vname, wname), dict(vmod), dict(w), s_cert='ecdsa', s_req_cert=True, c_cert=cert)
+    no256 = [x for x in D()['eccCurves'] if x != 'secp256r1']
+    no384 = [x for x in D()['eccCurves'] if x != 'secp384r1']
+    add('srv-ecdsa-curve', dict(tls12, eccCurves=no256, keyShares=['x25519']), {}, s_cert='ecdsa')
+    add('srv-ecdsa384-curve', dict(tls12, eccCurves=no384), {}, s_cert='ecdsa384')
+    add('cli-ecdsa-curve', dict(tls12), {'eccCurves': no256, 'keyShares': ['x25519']}, s_cert='rsa', s_req_cert=True, c_cert='client-ecdsa')
+    for vname, vmod in (('tls12', tls12), ('tls13', {})):
+        add('srv-ed25519-off-' + vname, dict(vmod, more_sig_schemes=['Ed448']), {}, s_cert='ed25519')
+        add('cli-ed25519-off-' + vname, dict(vmod), {'more_sig_schemes': ['Ed448']}, s_cert='rsa', s_req_cert=True, c_cert='client-ed25519')
+    return out
+
+
 def fixed_cases():
     """Boundary cases kept from earlier disagreements / findings; always run first."""
     D = default_settings_dict
@@ -668,4 +730,4 @@ def fixed_cases():
          s_req_cert=True, c_cert='client-ed25519')
     case(cmod={'more_sig_schemes': ['Ed448']}, s_cert='rsa', s_req_cert=True, c_cert='client-ed25519')
     case(cmod={'requireExtendedMasterSecret': True, 'maxVersion': [3, 3], 'versions': [[3, 3], [3, 2], [3, 1]]}, s_cert='rsa')
-    return out
+    return out + boundary_key_cases()
